@@ -3,7 +3,15 @@ From Coq Require Import List NArith Bool.
 Import ListNotations.
 Local Open Scope N_scope.
 
-Inductive stm := SKind (k : N) | SAdv | SIf (c : N) (t e : list stm).
+Inductive stm :=
+| SKind (k : N)                              (* tk->syntaxK_ = K *)
+| SAdv                                       (* yyinput() *)
+| SIf (c : N) (t e : list stm)               (* if (yychar_ == 'c') *)
+| SIf2 (c d : N) (t e : list stm)            (* if (yychar_ == 'c' && yytext_[1] == 'd'): a look at the byte after the next, without advancing *)
+| SIfDigit (t e : list stm)                  (* if (std::isdigit(yychar_)) *)
+| SOut.                                      (* a call of a sub-lexer: the token is not a punctuator; the case ends here *)
+
+Definition isdigit (b : N) : bool := N.leb 48 b && N.leb b 57.
 
 (** state: the kind assigned so far (None: tk->setup() left it unset) and the input still ahead;
     the byte ahead of an empty input is the terminating NUL *)
@@ -22,12 +30,15 @@ Fixpoint exec (fuel : nat) (ss : list stm) (kind : option N) (inp : list N) (n :
                      | [] => exec f r kind [] n true           (* yyinput() at the NUL: a read past the buffer *)
                      end
       | SIf c t e :: r => exec f ((if N.eqb (ahead inp) c then t else e) ++ r) kind inp n oob
+      | SIf2 c d t e :: r => exec f ((if N.eqb (ahead inp) c && N.eqb (ahead (tl inp)) d then t else e) ++ r) kind inp n oob
+      | SIfDigit t e :: r => exec f ((if isdigit (ahead inp) then t else e) ++ r) kind inp n oob
+      | SOut :: _ => (None, n, oob)
       end
   end.
 
 Fixpoint ssize (s : stm) : nat :=
   match s with
-  | SIf _ t e => S (list_sum (map ssize t) + list_sum (map ssize e))
+  | SIf _ t e | SIf2 _ _ t e | SIfDigit t e => S (list_sum (map ssize t) + list_sum (map ssize e))
   | _ => 1%nat
   end.
 Definition size (ss : list stm) : nat := S (list_sum (map ssize ss)).
